@@ -1096,7 +1096,7 @@ fn gc_race_case(cfg: &GenCfg, rng: &mut Rng, w: &mut dyn Write, kind: &str, idx:
     let low = 9u32; // operands live on the bottom variables low..n; the ballast spreads over all levels
     writeln!(w, "case c07-gcrace-{}-{}", kind, idx).unwrap();
     writeln!(w, "mgr nodes=4194304 cache=4096 threads=4 split=auto vars={}", n).unwrap();
-    writeln!(w, "ballast {} {} 0 {}", if cfg.thorough { 200000 } else { 50000 }, rng.below(1 << 30), n).unwrap();
+    writeln!(w, "ballast {} {} 0 {}", if cfg.thorough { 1200000 } else { 350000 }, rng.below(1 << 30), n - 2).unwrap();
     let mut pool: Vec<String> = Vec::new();
     for v in low..n {
         writeln!(w, "var x{} {}", v, v).unwrap();
